@@ -18,7 +18,8 @@ RULE = ("(1) EXHAUSTIVE: every string over the 14 syntax symbols `{ } ( ) \\ : <
         "prefix of the output; (5) invalid / multi-piece zone arguments and invalid strftime formats; (6) rejected "
         "texts of 24-100 bytes made of 0-7 ASCII letters followed by 12 (24) copies of a 2-, 3- or 4-byte character "
         "as unknown formatter name, zone, date format, MDC key, unterminated formatter: every byte offset from 8 "
-        "to 70 falls inside some character. Every call "
+        "to 70 falls inside some character; (7) non-ASCII numeric characters (Arabic-Indic, superscript, fullwidth, Roman "
+        "numeral, fraction, CJK, Devanagari, mathematical digit) in every width position. Every call "
         "runs under catch_unwind on its own thread; patterns containing a digit run of value > 64 are "
         "constructed but not encoded. non-trivial = the pattern contains at least one syntax character; "
         "distinct = distinct case line")
@@ -144,6 +145,12 @@ def cases(rng, tier):
                 s6 = tmpl.replace("%s", body).replace("%%", "%")
                 out.append(mk_str(s6, k, envs[k % len(envs)]))
                 k += 1
+    # (7) characters that are numeric but not ASCII digits where a width is expected (Arabic-Indic, superscript,
+    # fullwidth, Roman numeral, vulgar fraction, CJK numeral): a syntax error, never a panic
+    for ch in ["\u0663", "\u00b2", "\uff15", "\u2163", "\u00bd", "\u4e09", "\u0967", "\U0001d7d7"]:
+        for tmpl in ("{m:%s}", "{m:>%s}", "{m:4.%s}", "{m:.%s}", "{m:*<%s}", "{m:1%s}", "{(a{m}):%s.2}", "{l:%s%s}", "{m:%s5}"):
+            out.append(mk_str(tmpl.replace("%s", ch), k, envs[k % len(envs)]))
+            k += 1
     # (2) mutations, (4) prefix + junk
     n_mut = 3000 if tier == "quick" else 40000
     n_pre = 1200 if tier == "quick" else 12000
